@@ -59,3 +59,65 @@ Definition run_stored_rd (allow_missing : bool) (st : stored) ss se rs re cs ce 
   | VL l => VL (l ++ [vvolume (get_volume allow_missing st None None None None None None false)])
   | v => v
   end.
+
+(* ---------------------------------------------------------------------- *)
+(* tiled (SLIDE) parametric maps: pm/sop.py, SLIDE branch                    *)
+(* ---------------------------------------------------------------------- *)
+(* Tiles are named by their row-major number t on the tile grid of the source
+   (nc tiles per row): tile t has its top left pixel at zero-based matrix
+   indices ((t / nc) * th, (t mod nc) * tw).
+   src_listed = the tiles in the order of the source's frames; u_listed = the tiles
+   whose (source) plane positions the caller passed as plane_positions, in the
+   caller's order.  'Spatial locations preserved' (no plane_positions, or exactly
+   the source's in the source's order): TotalPixelMatrixOriginSequence / Rows /
+   Columns are the SOURCE's.  Otherwise: the origin is the X / Y offset of the
+   np.lexsort([rows, columns])-first listed tile (NO Z offset is written: 0), and
+   Rows / Columns = position of the lexsort-last listed tile + tile size - 1. *)
+Definition tile_ab (nc t : Z) : Z * Z := (t / nc, t mod nc).
+(* order of np.lexsort([row_offsets, col_offsets]): by column, then by row *)
+Definition lex_cr_le (x y : Z * Z) : bool :=
+  (snd x <? snd y) || ((snd x =? snd y) && (fst x <=? fst y)).
+Definition lex_first (l : list (Z * Z)) (d : Z * Z) : Z * Z :=
+  fold_left (fun m x => if lex_cr_le m x then m else x) l d.
+Definition lex_last (l : list (Z * Z)) (d : Z * Z) : Z * Z :=
+  fold_left (fun m x => if lex_cr_le m x then x else m) l d.
+Fixpoint zlist_eqb (a b : list Z) : bool :=
+  match a, b with
+  | [], [] => true
+  | x :: a', y :: b' => (x =? y) && zlist_eqb a' b'
+  | _, _ => false
+  end.
+
+(* (origin, rows, columns) of the total pixel matrix the parametric map declares *)
+Definition pm_tiled_matrix (pos rowcos colcos : v3) (spr spc : Q) (R C th tw : Z)
+           (src_listed : list Z) (u_listed : option (list Z)) : res (v3 * Z * Z) :=
+  let nc := (C + tw - 1) / tw in
+  match u_listed with
+  | None => Ok (pos, R, C)
+  | Some l =>
+      if zlist_eqb l src_listed then Ok (pos, R, C)
+      else
+        let tl := map (tile_ab nc) l in
+        let f := lex_first tl (hd (0, 0) tl) in
+        let e := lex_last tl (hd (0, 0) tl) in
+        (* a first listed tile other than the top left one (the matrix positions of the
+           frames are then no longer relative to the declared origin) is not modelled *)
+        if negb ((fst f =? 0) && (snd f =? 0)) then Err "unmodelled"
+        else Ok (V3 (vx pos) (vy pos) 0, (fst e + 1) * th, (snd e + 1) * tw)
+  end.
+
+(* Mpad = the caller's tiles laid out on the tile grid (whole tiles: the padded mosaic);
+   [geometry; get_volume(args); declared TotalPixelMatrixRows / Columns; get_total_pixel_matrix()]
+   of the parametric map *)
+Definition run_pm_tiled (pos rowcos colcos : v3) (spr spc : Q) (R C th tw : Z)
+           (src_listed : list Z) (u_listed : option (list Z)) (Mpad : plane)
+           ss se rs re cs ce ai : val :=
+  match pm_tiled_matrix pos rowcos colcos spr spc R C th tw src_listed u_listed with
+  | Err k => VErr k
+  | Ok (org, R', C') =>
+      let M' := map (cut 0 C') (cut 0 R' Mpad) in
+      match run_tiled true org rowcos colcos spr spc None R' C' M' ss se rs re cs ce ai with
+      | VL l => VL (l ++ [VL [VZ R'; VZ C']; vz_list2 M'])
+      | v => v
+      end
+  end.
